@@ -227,10 +227,16 @@ def exec (w : World Î±) (op : String) (args : List (Arg Î±)) : World Î± Ã— Ret Î
   | "mnew", [.qty q, .num s] => (w, .meas (Meas.mk' q s))
   | "approx", [.qty q, .num s] => (w, .meas (approximately q s))
   | "lunit", [.num base, .pfx p, .qty ref] =>
-      let (w', r) := runCM w (unprefixedQty ref) .qty
-      (match r with
-       | .qty q => ({ w' with lus := w'.lus.push { base := base, pfx := p, reference := q } }, .lunit w'.lus.size)
-       | other => (w', other))
+      -- `Logarithm(base, prefix)[reference]`: interned by (logarithm, reference); two references
+      -- are the same key when magnitude and unit object are equal (hash, then ==)
+      (match w.lus.findIdx? (fun l => Mag.beq l.base base && l.pfx == p && Mag.beq l.key.mag ref.mag
+                                        && l.key.unit == ref.unit) with
+       | some i => (w, .lunit i)
+       | none =>
+         let (w', r) := runCM w (unprefixedQty ref) .qty
+         (match r with
+          | .qty q => ({ w' with lus := w'.lus.push { base := base, pfx := p, reference := q, key := ref } }, .lunit w'.lus.size)
+          | other => (w', other)))
   | "lnew", [.num m, .int lu] => (w, .level m lu.toNat)
   | "level", [.int lu, .qty q] =>
       (match w.lus[lu.toNat]? with
